@@ -181,22 +181,31 @@ class PbExpit(PBFlow):
         return {'out': SI.add(inp['out'], SI.conv(inp['ybar_data'], SI.sub(b, SI.conv(b, b))))}
 
 @register
-class PbAbsolute(FrameOnly):
-    qual = A('_pb_absolute')
+class PbAbsolute(PB):
+    """y = |x| away from the kink: xbar' = xbar + sign(x0) ybar   (the derivative series is the constant sign(x0))"""
+    qual = A('_pb_absolute'); dataflow = True; timeout_ms = 8000; cex_D = ()
+    def requires(self, c): return [c.pre['x_data'][0] != 0]
+    def sg(self, c): x = c.pre['x_data']; return z3.If(x[0] > 0, z3.RealVal(1), z3.If(x[0] < 0, z3.RealVal(-1), z3.RealVal(0)))
+    def G(self, c, j): return self.sg(c) * c.pre['ybar_data'][j]
+    def fp(self, c): return c.local('fprime_data')
+    def defs(self, c, n):
+        try: fp = self.fp(c)
+        except Exception: return []
+        return S.conv_def(c, c.pre['ybar_data'], fp, n)
     def invariants(self):
         def inv0(c, d):
-            x = c.pre['x_data']; fp = c.local('fprime_data')
-            sg = z3.If(x[0] > 0, z3.RealVal(1), z3.If(x[0] < 0, z3.RealVal(-1), z3.RealVal(0)))
-            return [c.forall(0, d, lambda j: fp[j] == z3.If(j == 0, sg, z3.RealVal(0)))] + c.unchanged('x_data', 'y_data', 'ybar_data', 'out')
+            fp = c.local('fprime_data')
+            return [c.forall(0, d, lambda j: fp[j] == z3.If(j == 0, self.sg(c), z3.RealVal(0)))] + c.unchanged('x_data', 'y_data', 'ybar_data', 'out')
         return {0: inv0}
-    def oracle(self, inp, scal, cfg):
-        sg = 1.0 if inp['x_data'][0] > 0 else -1.0; return {'out': SI.add(inp['out'], SI.scale(inp['ybar_data'], sg))}
+    def gnum(self, inp, scal): sg = 1.0 if inp['x_data'][0] > 0 else -1.0; return SI.scale(inp['ybar_data'], sg)
 
 @register
-class PbSign(FrameOnly):
-    qual = A('_pb_sign')
-    def oracle(self, inp, scal, cfg): return {'out': list(inp['out'])}
-
+class PbSign(PB):
+    """y = sign(x) away from the kink: the derivative vanishes, xbar is unchanged"""
+    qual = A('_pb_sign'); dataflow = True; timeout_ms = 8000; cex_D = ()
+    def G(self, c, j): return z3.RealVal(0)
+    def defs(self, c, n): return S.conv_def(c, c.pre['ybar_data'], z3.K(z3.IntSort(), z3.RealVal(0)), n)
+    def gnum(self, inp, scal): return [0.0 for _ in inp['ybar_data']]
 
 @register
 class PbPowReal(Contract):
